@@ -5,11 +5,11 @@ import common as c
 BASE = {"MaxN": 40, "Works": "{1}", "SharedRoots": "FALSE", "MaxFuture": 0, "MaxForb": 0, "Deviations": "{}"}
 
 
-def sync_consts(H, F=0, ForkAt=0, CpHs=(2,), Peers=(1, 2), Cap=2, CpEnabled=True, Forbid=(), Findings=(), MaxEnv=6, MaxConnects=2, Emit="none", Scenario="s", MaxRestarts=0, MaxAsks=0, MaxRaw=0):
+def sync_consts(H, F=0, ForkAt=0, CpHs=(2,), Peers=(1, 2), Cap=2, CpEnabled=True, Forbid=(), Findings=(), MaxEnv=6, MaxConnects=2, Emit="none", Scenario="s", MaxRestarts=0, MaxAsks=0, MaxRaw=0, F2=0, ForkAt2=0):
     d = dict(BASE)
     d.update({"Peers": c.tla_set(Peers), "Cap": Cap, "CpEnabled": "TRUE" if CpEnabled else "FALSE", "Forbid": c.tla_set(Forbid),
               "Findings": c.tla_set(Findings), "H": H, "F": F, "ForkAt": ForkAt, "CpHs": c.tla_set(CpHs), "MaxEnv": MaxEnv,
-              "MaxConnects": MaxConnects, "MaxRestarts": MaxRestarts, "MaxAsks": MaxAsks, "MaxRaw": MaxRaw, "Emit": '"%s"' % Emit, "Scenario": '"%s"' % Scenario})
+              "MaxConnects": MaxConnects, "MaxRestarts": MaxRestarts, "MaxAsks": MaxAsks, "MaxRaw": MaxRaw, "F2": F2, "ForkAt2": ForkAt2, "Emit": '"%s"' % Emit, "Scenario": '"%s"' % Scenario})
     return d
 
 
@@ -34,7 +34,24 @@ def generate(tag, consts, sample=None, rng=None, simulate=None, depth=None, seed
     os.unlink(raw)
     if sample and n > sample:
         rng = rng or random.Random(0)
-        keep = set(rng.sample(range(n), sample))
+        # half of the sample is uniform; the other half favours eventful behaviours (several peers involved, announcements by
+        # both routes, a peer going away in the middle, restarts, requests served) - the enumeration is dominated by dull ones
+        def score(line):
+            sc = 0
+            for pat, w in (('"op":"announce"', 2), ('"op":"close"', 2), ('"how":"inv"', 1), ('"how":"headers"', 1), ('"op":"restart"', 2),
+                           ('"raw":true', 2), ('"op":"ask"', 1), ('"t":"closed"', 2)):
+                sc += w * min(line.count(pat), 2)
+            if '"p":1' in line and '"p":2' in line:
+                sc += 2
+            return sc
+        uni = set(rng.sample(range(n), sample // 2))
+        scored = []
+        with open(out) as fi:
+            for i, line in enumerate(fi):
+                if i not in uni:
+                    scored.append((score(line) + rng.random(), i))
+        scored.sort(reverse=True)
+        keep = uni | {i for _, i in scored[:sample - len(uni)]}
         with open(out) as fi, open(out + ".s", "w") as fo:
             for i, line in enumerate(fi):
                 if i in keep:
@@ -45,10 +62,10 @@ def generate(tag, consts, sample=None, rng=None, simulate=None, depth=None, seed
     return out, n, r
 
 
-def exp_consts(H, F=0, ForkAt=0, CpHs=(2,), Cap=2, Forbid=(), Findings=(), MaxEnv=6, Emit="none", Scenario="x", MaxRaw=0):
+def exp_consts(H, F=0, ForkAt=0, CpHs=(2,), Cap=2, Forbid=(), Findings=(), MaxEnv=6, Emit="none", Scenario="x", MaxRaw=0, F2=0, ForkAt2=0):
     d = dict(BASE)
     d.update({"Cap": Cap, "Forbid": c.tla_set(Forbid), "Findings": c.tla_set(Findings), "H": H, "F": F, "ForkAt": ForkAt,
-              "CpHs": c.tla_set(CpHs), "MaxEnv": MaxEnv, "MaxRaw": MaxRaw, "Emit": '"%s"' % Emit, "Scenario": '"%s"' % Scenario})
+              "CpHs": c.tla_set(CpHs), "MaxEnv": MaxEnv, "MaxRaw": MaxRaw, "F2": F2, "ForkAt2": ForkAt2, "Emit": '"%s"' % Emit, "Scenario": '"%s"' % Scenario})
     return d
 
 
